@@ -273,6 +273,7 @@ static void run_batch(const vf::Args &args, Report &rep)
                 memcpy(work.get(), src.get(), 24 * n);
                 uint64_t *out = inplace ? work.get() : res.get();
                 Goldilocks3::batchInverse((E3 *)out, (E3 *)work.get(), n);
+                vf::digest("batchInverse", vf::mix64(n, inplace), out, 24 * n);
                 rp.evaluations++;
                 uint64_t step = n > 2000 ? n / 1500 : 1; // element-wise oracle inversion (sampled for long arrays, always incl. first and last)
                 for (uint64_t k = 0; k < n; k += (k + step < n || k == n - 1) ? step : (n - 1 - k))
